@@ -7,17 +7,17 @@ Section Gen.
 Variable fixed : bool.
 
 Definition pre (c : cfg) (s : state) (prev : option (nat * outcome)) (i : nat) : hres :=
-  if c_interruptible c && killed s && negb (c_async c && (i =? 0)) then HDone RError []
+  if c_interruptible c && killed s && negb (c_async c && (i =? 0)) then HDone s RError []
   else match prev with None => HRetry s [] | Some (t, o) => handle fixed c s t o (pred i) end.
 
 Lemma loop_unfold c script s prev i :
   loop_gen fixed c script s prev i =
   match pre c s prev i with
-  | HDone r evs => (evs, r)
+  | HDone _ r evs => (evs, r)
   | HRetry s1 evs1 =>
       let s1' := if 0 <? i then set_q_retry true s1 else s1 in
       match sel_phase c s1' with
-      | SDone r evs2 => (evs1 ++ evs2, r)
+      | SDone _ r evs2 => (evs1 ++ evs2, r)
       | SSent s2 t evs2 =>
           let ev := EAtt t (q_rr s2) (q_stale s2) (q_retry s2) in
           let s3 := raise_att c i (after_send s2 t) in
@@ -35,7 +35,7 @@ Proof. destruct script; reflexivity. Qed.
 Lemma pre_spec c s prev i :
   match pre c s prev i with
   | HRetry s' evs => room s' <= room s + n_rearms evs /\ n_attempts evs = 0
-  | HDone _ evs => quiet evs
+  | HDone _ _ evs => quiet evs
   end.
 Proof.
   unfold pre. destruct (c_interruptible c && killed s && _); [auto|].
@@ -56,11 +56,11 @@ Lemma loop_bound c script : forall s prev i,
   n_attempts (fst (loop_gen fixed c script s prev i)) <= room s + n_rearms (fst (loop_gen fixed c script s prev i)).
 Proof.
   induction script as [|o rest IH]; intros s prev i; rewrite loop_unfold;
-    pose proof (pre_spec c s prev i) as P; destruct (pre c s prev i) as [s1 evs1|r evs1];
+    pose proof (pre_spec c s prev i) as P; destruct (pre c s prev i) as [s1 evs1|sd r evs1];
     try (destruct P as [P1 P2]; cbn [fst]; lia); destruct P as [P1 P2]; cbv zeta;
     set (s1' := if 0 <? i then set_q_retry true s1 else s1);
     assert (R1 : room s1' = room s1) by (subst s1'; destruct (0 <? i); reflexivity);
-    pose proof (sel_phase_spec c s1') as Q; destruct (sel_phase c s1') as [s2 t evs2|r evs2].
+    pose proof (sel_phase_spec c s1') as Q; destruct (sel_phase c s1') as [s2 t evs2|sd2 r evs2].
   all: try (destruct Q as [Q1 Q2]; cbn [fst]; rewrite n_attempts_app, n_rearms_app; lia).
   all: destruct Q as (Q1 & Q2 & Q3).
   - cbn [fst]. rewrite !n_attempts_app, !n_rearms_app. cbn. lia.
@@ -91,7 +91,7 @@ Definition is_hint (o : outcome) : bool := match o with ONotLeaderHint _ => true
 Definition n_hints (script : list outcome) : nat := length (filter is_hint script).
 
 Lemma handle_rearms c s t o i :
-  match handle fixed c s t o i with HRetry _ evs | HDone _ evs => n_rearms evs <= (if is_hint o then 1 else 0) end.
+  match handle fixed c s t o i with HRetry _ evs | HDone _ _ evs => n_rearms evs <= (if is_hint o then 1 else 0) end.
 Proof.
   pose proof (handle_spec fixed c s t o i) as H.
   destruct o; cbn [handle is_hint] in *;
@@ -110,10 +110,10 @@ Lemma loop_rearms c script : forall s t o i,
 Proof.
   induction script as [|o' rest IH]; intros s t o i; rewrite loop_unfold; unfold pre;
     (destruct (c_interruptible c && killed s && _); [cbn [fst n_rearms filter length]; lia|]);
-    pose proof (handle_rearms c s t o (pred i)) as P; destruct (handle fixed c s t o (pred i)) as [s1 evs1|r evs1];
+    pose proof (handle_rearms c s t o (pred i)) as P; destruct (handle fixed c s t o (pred i)) as [s1 evs1|sd r evs1];
     try (cbn [fst]; lia); cbv zeta;
     set (s1' := if 0 <? i then set_q_retry true s1 else s1);
-    pose proof (sel_phase_spec c s1') as Q; destruct (sel_phase c s1') as [s2 t2 evs2|r evs2].
+    pose proof (sel_phase_spec c s1') as Q; destruct (sel_phase c s1') as [s2 t2 evs2|sd2 r evs2].
   all: try (destruct Q as [Q1 Q2]; cbn [fst]; rewrite n_rearms_app; lia).
   all: destruct Q as (Q1 & Q2 & Q3).
   - cbn [fst]. rewrite !n_rearms_app. cbn. lia.
@@ -129,7 +129,7 @@ Proof.
   unfold run_gen. destruct (validation_refuses c); [cbn; lia|].
   set (s := init_state c rands sleeps). rewrite loop_unfold. unfold pre.
   destruct (c_interruptible c && killed s && _); [cbn [fst n_rearms filter length]; lia|]. cbv zeta. cbn [Nat.ltb Nat.leb].
-  pose proof (sel_phase_spec c s) as Q; destruct (sel_phase c s) as [s2 t2 evs2|r evs2].
+  pose proof (sel_phase_spec c s) as Q; destruct (sel_phase c s) as [s2 t2 evs2|sd2 r evs2].
   2: { destruct Q as [Q1 Q2]. cbn [fst app]. lia. }
   destruct Q as (Q1 & Q2 & Q3).
   destruct script as [|o rest]; [cbn [fst app]; rewrite n_rearms_app; cbn; lia|].
